@@ -372,7 +372,17 @@ theorem tryParseNumber_rat (n : Int) (d : Nat) (hd : d ≠ 0) :
     have hdr : (writeInt n ++ '/' :: decDigits d).drop ((writeInt n).length + 1) = decDigits d := by
       rw [← List.drop_drop]; simp
     simp only [Bool.false_eq_true, if_false, Bool.or_self]
-    rw [ht, hdr, parseIntRadix_writeInt, parseIntRadix_digits _ hwd d (parse_decDigits d) hdne]
+    have hsign : ((decDigits d).head? == some '+' || (decDigits d).head? == some '-') = false := by
+      cases hh : decDigits d with
+      | nil => exact absurd hh hdne
+      | cons c cs =>
+        have hc : isDigit c = true := hwd c (by rw [hh]; simp)
+        have h1 : c ≠ '+' := by intro h; subst h; simp [isDigit] at hc
+        have h2 : c ≠ '-' := by intro h; subst h; simp [isDigit] at hc
+        simp [h1, h2]
+    rw [ht, hdr, hsign]
+    simp only [Bool.false_eq_true, if_false]
+    rw [parseIntRadix_writeInt, parseIntRadix_digits _ hwd d (parse_decDigits d) hdne]
   · simp [zeroDen]; exact hd
 
 theorem rat_numChars (n : Int) (d : Nat) : ∀ c ∈ writeInt n ++ '/' :: decDigits d, isNumChar c = true := by
